@@ -111,9 +111,10 @@ let run_pending (path : string) =
       let wfb = wf_from !t [ev] in
       let (s', o) = pstep !s ev in
       s := s'; t := sstep !t ev;
+      let via_cmd = (match c.header with "cmd" :: _ -> true | _ -> false) in
       let obs = match o with
         | OReg txt -> "reg " ^ esc (string_of_cl txt)
-        | OAck b -> "ack " ^ (if b then "1" else "0") in
+        | OAck b -> if via_cmd then "ack ?" else "ack " ^ (if b then "1" else "0") in
       let spec = String.concat ";" (List.map (fun (id, l) ->
           dec_of_n id ^ ":" ^ String.concat "," (List.sort compare (List.map (fun n -> esc (string_of_cl n)) l)))
           (List.sort (fun (a, _) (b, _) -> cmp_n a b) !t)) in
